@@ -186,6 +186,29 @@ def gen_value_cases(rng, tier):
             cases.append(("value:float-limits", [("NEW", "g"), ("PC", "pc", xyz3 + [(nm, ty)]), ("PT", [ONE, ONE, ONE, v])] + std_tail()))
     cases.append(("value:float-limits", [("NEW", "g"), ("PC", "pc", [("x", "D/4000000000000000/3ff0000000000000"), ("y", "D"), ("z", "D")]),
                                          ("PT", [ONE, ONE, ONE])] + std_tail()))
+    # extension records that share a LOCAL name with another record (another namespace, or a standard
+    # attribute) are different attributes: must be accepted; the same namespace AND name twice (adjacent,
+    # non-adjacent) is a duplicate: must be rejected
+    E2 = [("EXT", "ext1", "http://a.example/1"), ("EXT", "ext2", "http://a.example/2")]
+    def u(ns, nm):
+        return ("u", ns, nm)
+    for proto, pt in (
+        (xyz3 + [(u("ext1", "quality"), "I/0/10"), (u("ext2", "quality"), "I/0/255")], [ONE, ONE, ONE, "i3", "i200"]),
+        (xyz3 + [("in", "I/0/255"), (u("ext1", "intensity"), "I/0/7")], [ONE, ONE, ONE, "i200", "i5"]),
+        ([(u("ext1", "intensity"), "I/0/7")] + xyz3 + [("in", "D")], ["i5", ONE, ONE, ONE, HALF]),
+        (xyz3 + [(u("ext1", "cartesianX"), "D"), (u("ext2", "rowIndex"), "D"), ("row", "I/0/9")], [ONE, ONE, ONE, TWO, HALF, "i4"]),
+        (xyz3 + [(u("ext1", "colorRed"), "I/0/7"), ("r", "I/0/255"), ("g", "I/0/255"), ("b", "I/0/255"), (u("ext2", "colorRed"), "D")],
+         [ONE, ONE, ONE, "i1", "i9", "i9", "i9", HALF]),
+        (xyz3 + [(u("ext1", "timeStamp"), "I/0/3"), (u("ext1", "isTimeStampInvalid"), "D")], [ONE, ONE, ONE, "i2", HALF]),
+    ):
+        cases.append(("value:shared-local-name", [("NEW", "g")] + E2 + [("PC", "pc", proto), ("PT", pt), ("PT", pt)] + std_tail()))
+    for proto in (
+        xyz3 + [(u("ext1", "quality"), "I/0/10"), (u("ext1", "quality"), "I/0/10")],
+        xyz3 + [(u("ext1", "quality"), "I/0/10"), (u("ext2", "quality"), "D"), (u("ext1", "quality"), "D")],
+        [(u("ext2", "a"), "D")] + xyz3 + [(u("ext1", "a"), "D"), ("in", "D"), (u("ext2", "a"), "I/0/1")],
+        xyz3 + [("in", "I/0/255"), (u("ext1", "intensity"), "I/0/7"), ("in", "D")],
+    ):
+        cases.append(("value:true-duplicate", [("NEW", "g")] + E2 + [("PC", "pc", proto), ("PT", [ONE] * len(proto))] + std_tail()))
     # random prototypes, points valid with probability 2/3, one component damaged otherwise
     for _ in range(150 if tier == "quick" else 4000):
         p = gen.rand_proto(rng, small=rng.chance(2, 3))
